@@ -228,8 +228,9 @@ func vUpgradeScenario(w vUp, withV7 bool, restarts int, orig vOrig) {
 	verifAssert("C08-later-starts-change-nothing", v2.ok && v2.n == 1 && v2.index == orig.index && v2.term == orig.term && v2.content == orig.content)
 }
 
-// VerifC08Upgrade8To10: v8 directory, one crash, in the thorough tier (and for the single-snapshot
-// shape in the quick tier) a second one in the restarted upgrade.
+// VerifC08Upgrade8To10: v8 directory; a crash at every crash point of the start, then at every
+// crash point of the restarted start (or none); for the single-snapshot shape, and for all shapes
+// in the thorough tier, a third crash in the start after that.
 func VerifC08Upgrade8To10() {
 	verifPanicsAreViolations()
 	root := vNewRoot("r")
@@ -237,9 +238,9 @@ func VerifC08Upgrade8To10() {
 	w := vUpDirs(root)
 	shapeNo := verifChoice("shape", len(vOldShapes))
 	orig := vBuildV8(w, vOldShapes[shapeNo])
-	restarts := 0
+	restarts := 1
 	if verifTier() > 0 || shapeNo == 0 {
-		restarts = 1 + verifTier()
+		restarts = 2
 	}
 	vPTSName, vPTSShape, vPTSEmpty, vPTSWithout = "VerifC08Upgrade8To10", shapeNo, false, false
 	vUpgradeScenario(w, false, restarts, orig)
@@ -262,12 +263,8 @@ func VerifC08FromV7() {
 		olderWithoutState = shapeNo == 2
 	}
 	orig := vBuildV7(w, vOldShapes[shapeNo], emptyState, olderWithoutState)
-	restarts := 0
-	if verifTier() > 0 || shapeNo == 0 {
-		restarts = 1
-	}
 	vPTSName, vPTSShape, vPTSEmpty, vPTSWithout = "VerifC08FromV7", shapeNo, emptyState, olderWithoutState
-	vUpgradeScenario(w, true, restarts, orig)
+	vUpgradeScenario(w, true, 1, orig)
 }
 
 // VerifC08Twin (must be violated): the same scenario, but the node is not started again after
